@@ -420,7 +420,40 @@ func sameNilSubject(a, b ssa.Value) bool {
 		}
 		return v
 	}
-	return strip(a) == strip(b)
+	a, b = strip(a), strip(b)
+	if a == b {
+		return true
+	}
+	// two loads of one private local (a named result kept in memory because of a defer) with no
+	// store to it between the tested load and the queried one
+	la, ok1 := a.(*ssa.UnOp)
+	lb, ok2 := b.(*ssa.UnOp)
+	if !ok1 || !ok2 || la.Op != token.MUL || lb.Op != token.MUL || la.X != lb.X {
+		return false
+	}
+	cell, ok := la.X.(*ssa.Alloc)
+	if !ok || cell.Referrers() == nil {
+		return false
+	}
+	for _, ref := range *cell.Referrers() {
+		switch x := ref.(type) {
+		case *ssa.UnOp:
+		case *ssa.Store:
+			if x.Val == ssa.Value(cell) {
+				return false // the address escapes
+			}
+			if x.Addr == ssa.Value(cell) && Reaches(la, x) && Reaches(x, lb) {
+				// a store of the very value that was loaded back (`*err = *err` before rundefers) changes nothing
+				if ld, isLd := x.Val.(*ssa.UnOp); isLd && ld.Op == token.MUL && ld.X == ssa.Value(cell) {
+					continue
+				}
+				return false
+			}
+		default:
+			return false // captured or passed on
+		}
+	}
+	return true
 }
 
 // walker is the shared worklist of all CFG traversals: states are (block, the
